@@ -1,6 +1,116 @@
 package main
 
-// replayViolation re-executes the counterexample natively where the harness allows it.
-func replayViolation(w *World, spec *Spec, hdir, prop, harness string, v *Violation, replayPath string) string {
-	return "symbolic counterexample; native replay not run"
+import (
+	"encoding/json"
+	"fmt"
+	"os"
+	"os/exec"
+	"path/filepath"
+	"strings"
+	"time"
+)
+
+const modulePath = "go.minekube.com/gate"
+
+type replayOutcome struct {
+	status     string // reproduced | symbolic-only | not-reproduced | error
+	detail     string
+	reproduced bool
+	supported  bool
+}
+
+// replayNative compiles the harness with the native zzverif implementation and the real Go toolchain
+// and runs it on the model's input values against the real package.
+func replayNative(w *World, spec *Spec, hdir, prop string, pkgPath, pkgName, harness string, v *Violation, replayPath string) replayOutcome {
+	if !strings.HasPrefix(pkgPath, modulePath) {
+		return replayOutcome{status: "symbolic-only", detail: "harness package outside the module"}
+	}
+	rel := strings.TrimPrefix(strings.TrimPrefix(pkgPath, modulePath), "/")
+	tmp := filepath.Join(verifDir, "out", "replay", fmt.Sprintf("%s-%s-%d", prop, harness, os.Getpid()))
+	os.MkdirAll(tmp, 0o755)
+	defer os.RemoveAll(tmp)
+	testSrc := fmt.Sprintf("package %s\n\nimport (\n\t\"testing\"\n\n\tzz \"%s\"\n)\n\nfunc TestZZReplay(t *testing.T) { zz.Replay(%s) }\n", pkgName, zzPath, harness)
+	testFile := filepath.Join(tmp, "replay_test.go")
+	os.WriteFile(testFile, []byte(testSrc), 0o644)
+	repl := map[string]string{
+		filepath.Join(repoDir, "pkg/internal/zzverif/zzverif.go"): filepath.Join(verifDir, "shim", "zzverif_native.go"),
+		filepath.Join(repoDir, rel, "zz_verif_replay_test.go"):    testFile,
+	}
+	for virt, real := range spec.Files {
+		repl[filepath.Join(repoDir, virt)] = filepath.Join(hdir, real)
+	}
+	ob, _ := json.Marshal(map[string]interface{}{"Replace": repl})
+	ofile := filepath.Join(tmp, "overlay.json")
+	os.WriteFile(ofile, ob, 0o644)
+	args := []string{"test", "-v", "-vet=off", "-count=1", "-run", "^TestZZReplay$", "-timeout", "120s", "-overlay", ofile, "./" + rel}
+	cmd := exec.Command("go", args...)
+	cmd.Dir = repoDir
+	env := goEnv()
+	env = append(env, "ZZ_REPLAY="+replayPath)
+	if w.thorough {
+		env = append(env, "ZZ_THOROUGH=1")
+	}
+	cmd.Env = env
+	done := make(chan struct{})
+	var out []byte
+	var err error
+	go func() { out, err = cmd.CombinedOutput(); close(done) }()
+	select {
+	case <-done:
+	case <-time.After(240 * time.Second):
+		cmd.Process.Kill()
+		<-done
+		return replayOutcome{status: "error", detail: "native replay timed out"}
+	}
+	text := string(out)
+	res := ""
+	for _, l := range strings.Split(text, "\n") {
+		if strings.HasPrefix(l, "ZZ-RESULT: ") {
+			res = strings.TrimPrefix(l, "ZZ-RESULT: ")
+		}
+	}
+	if res == "" {
+		// a crash of the test binary (fatal error, unrecovered panic in another goroutine, build failure)
+		if strings.Contains(text, "fatal error:") || strings.Contains(text, "panic:") {
+			first := ""
+			for _, l := range strings.Split(text, "\n") {
+				if strings.HasPrefix(l, "fatal error:") || strings.HasPrefix(l, "panic:") {
+					first = l
+					break
+				}
+			}
+			if v.Kind == "panic" || v.Kind == "deadlock" || v.Kind == "race" {
+				return replayOutcome{status: "reproduced", detail: "native run crashed: " + first, reproduced: true, supported: true}
+			}
+			return replayOutcome{status: "not-reproduced", detail: "native run crashed differently: " + first, supported: true}
+		}
+		_ = err
+		tail := text
+		if len(tail) > 600 {
+			tail = tail[len(tail)-600:]
+		}
+		return replayOutcome{status: "error", detail: "native replay produced no result: " + tail}
+	}
+	switch {
+	case strings.HasPrefix(res, "unsupported:"), strings.HasPrefix(res, "diverged:") && v.Stubbed:
+		return replayOutcome{status: "symbolic-only", detail: res}
+	case strings.HasPrefix(res, "assert-fail "):
+		return replayOutcome{status: "reproduced", detail: "native assertion failed: " + strings.TrimPrefix(res, "assert-fail "), reproduced: true, supported: true}
+	case strings.HasPrefix(res, "panic "):
+		if v.Kind == "panic" || v.Kind == "assert" {
+			return replayOutcome{status: "reproduced", detail: "native " + res, reproduced: true, supported: true}
+		}
+		return replayOutcome{status: "not-reproduced", detail: "native " + res, supported: true}
+	case strings.HasPrefix(res, "timeout"):
+		if v.Kind == "deadlock" || v.Kind == "lock-leak" {
+			return replayOutcome{status: "reproduced", detail: "native run did not return (deadlock)", reproduced: true, supported: true}
+		}
+		return replayOutcome{status: "not-reproduced", detail: "native run hung", supported: true}
+	case res == "ok":
+		if v.Kind == "lock-leak" || v.Kind == "race" || v.Kind == "alloc" {
+			return replayOutcome{status: "symbolic-only", detail: "the " + v.Kind + " monitor has no native observable in this harness"}
+		}
+		return replayOutcome{status: "not-reproduced", detail: "native run passed", supported: true}
+	}
+	return replayOutcome{status: "not-reproduced", detail: res, supported: true}
 }
